@@ -12,6 +12,7 @@ import warnings
 from . import deps
 
 deps.add_path()
+os.environ.setdefault("PERSIM_VERIF", "1")
 
 ROOT = os.environ.get("PERSIM_VERIF_ROOT", "/repo")
 
@@ -54,6 +55,7 @@ class ClauseStats:
         self.budget_exhausted = False
         self.exhaustive_total = None
         self.values = {}
+        self.timeouts = 0
 
     def add(self, case, res):
         from .core import case_hash
@@ -74,6 +76,8 @@ class ClauseStats:
                     if len(s) <= 1500:
                         self.samples.append(case)
         if res["outcome"] == "violation":
+            if "no_result_within" in res["sig"]:
+                self.timeouts += 1
             f = self.failures.setdefault(res["sig"], {"count": 0, "msg": res["msg"], "cases": []})
             f["count"] += 1
             f["cases"].append(case)
@@ -105,6 +109,9 @@ def run_clause(clause, n, seed, shard, nshards, wall_cap):
             total += 1
             if idx % nshards != shard:
                 continue
+            if st.timeouts >= 2:
+                st.budget_exhausted = True
+                continue
             st.add(case, run_case(clause, case))
         st.exhaustive_total = total
         st.wall = time.time() - t0
@@ -120,7 +127,7 @@ def run_clause(clause, n, seed, shard, nshards, wall_cap):
                                      HealthCheck.large_base_example])
     @given(clause.strategy)
     def test(case):
-        if time.time() - t0 > wall_cap:
+        if time.time() - t0 > wall_cap or st.timeouts >= 2:
             st.budget_exhausted = True
             return
         st.add(case, run_case(clause, case))
